@@ -48,12 +48,13 @@ theorem parseField_basic (fuel : Nat) (h : Header) (c : Ctx) (seen : Seen) (curs
     (hn : h.names[cursor]? = some name) (ht : h.types[cursor]? = some typ) (hne : name ≠ []) (hte : typ ≠ [])
     (hb : basicCell typ = true) :
     parseField (fuel + 1) h c [] seen cursor [] =
-      match checkConflict seen name cursor with
+      atCur cursor
+      (match checkConflict seen name cursor with
       | none => .error (.err "E0003")
       | some seen' =>
         match parseBasicField c name typ with
         | .error e => .error e
-        | .ok f => .ok (cursor, seen', some f) := by
+        | .ok f => .ok (cursor, seen', some f)) := by
   have hdrop : h.names.drop cursor = name :: h.names.drop (cursor + 1) := by
     have hlt : cursor < h.names.length := by
       rcases Nat.lt_or_ge cursor h.names.length with hl | hl
@@ -114,14 +115,16 @@ theorem loop_append (c : Ctx) (names types names' types' : List Str) (hflat : Fl
     rw [p1] at r1
     rw [p2] at r2
     cases hcc : checkConflict seen nm cursor with
-    | none => rw [hcc] at r1; simp at r1
+    | none => rw [hcc] at r1; simp [atCur] at r1
     | some seen' =>
       rw [hcc] at r1 r2
       cases hpb : parseBasicField c nm ty with
-      | error e => rw [hpb] at r1; simp at r1
+      | error e =>
+        rw [hpb] at r1
+        rcases e with ⟨t, _ | cu⟩ | _ | _ <;> simp [atCur] at r1
       | ok f =>
         rw [hpb] at r1 r2
-        simp only at r1 r2
+        simp only [atCur] at r1 r2
         exact ih (cursor + 1) (G1 + 1) (G2 + 1) seen' (acc ++ [f]) fs fs' (by omega) (by omega) (by omega) r1 r2
 
 /-- **C15_append_basic_partial**: appending any columns to a sheet of basic columns keeps every existing
@@ -133,9 +136,9 @@ theorem C15_append_basic_partial (c : Ctx) (names types names' types' : List Str
     ∃ more, fs' = fs ++ more := by
   unfold parseSheet defaultFuel at h1 h2
   split at h1
-  case isFalse => simp at h1
+  case h_2 => simp at h1
   split at h2
-  case isFalse => simp at h2
+  case h_2 => simp at h2
   exact loop_append c names types names' types' hflat names.length 0 _ _ [] [] fs fs' (by simp)
     (by simp; omega) (by simp; omega) h1 h2
 
